@@ -193,6 +193,18 @@ Proof. intros cs0 vs0 k. unfold prune_ilin_le_mixed. generalize 0%nat. generaliz
   - destruct (xset_max v _ c0) as [c1|] eqn:E; [|discriminate]. intro H. eapply store_ile_trans. eapply IH; eauto. eapply xset_max_isafe; eauto.
   - destruct (xset_min v _ c0) as [c1|] eqn:E; [|discriminate]. intro H. eapply store_ile_trans. eapply IH; eauto. eapply xset_min_isafe; eauto. Qed.
 
+Lemma prune_fadd_isafe : forall x y s, isafe (prune_fadd x y s).
+Proof. intros x y s c c' H. unfold prune_fadd in H.
+  destruct (xset_min s _ c) as [c1|] eqn:E1; [|discriminate].
+  destruct (xset_max s _ c1) as [c2|] eqn:E2; [|discriminate].
+  destruct (fv_set_min x _ c2) as [c3|] eqn:E3; [|discriminate].
+  destruct (fv_set_max x _ c3) as [c4|] eqn:E4; [|discriminate].
+  destruct (fv_set_min y _ c4) as [c5|] eqn:E5; [|discriminate].
+  apply (proj2 (fv_set_isafe y)) in H. apply (proj1 (fv_set_isafe y)) in E5.
+  apply (proj2 (fv_set_isafe x)) in E4. apply (proj1 (fv_set_isafe x)) in E3.
+  apply xset_max_isafe in E2. apply xset_min_isafe in E1.
+  eauto 10 using store_ile_trans. Qed.
+
 (* the propagator vocabulary of Model/FloatProps.v *)
 Definition fsafe (p : fprop) : Prop := isafe (fprune p).
 Inductive fvocab : fprop -> Prop :=
@@ -205,12 +217,15 @@ Inductive fvocab : fprop -> Prop :=
 | V_leq : forall x y, fvocab (mk_fleq x y)
 | V_flt : forall x y, fvocab (mk_flt x y)
 | V_feq : forall x y, fvocab (mk_feq x y)
-| V_ilin : forall cs vs k, fvocab (mk_ilin_le_mixed cs vs k).
+| V_ilin : forall cs vs k, fvocab (mk_ilin_le_mixed cs vs k)
+| V_add : forall x y s, fvocab (mk_fadd x y s)
+| V_sub : forall x y s, fvocab (mk_fsub x y s).
 Lemma fvocab_fsafe : forall p, fvocab p -> fsafe p.
 Proof. intros p H; destruct H; unfold fsafe; simpl.
   apply prune_flin_le_isafe. apply prune_flin_eq_gen_isafe. apply prune_flin_ne_isafe.
   apply prune_flin_le_reif_isafe. apply prune_flin_eq_reif_isafe. apply prune_flin_ne_reif_isafe.
-  apply prune_fleq_isafe. apply prune_flt_isafe. apply prune_feq_isafe. apply prune_ilin_le_mixed_isafe. Qed.
+  apply prune_fleq_isafe. apply prune_flt_isafe. apply prune_feq_isafe. apply prune_ilin_le_mixed_isafe.
+  apply prune_fadd_isafe. apply prune_fadd_isafe. Qed.
 
 Lemma fpropagate_ile : forall pf ps s q r lft, Forall fsafe ps -> fpropagate pf ps s q = (FPDone r, lft) -> store_ile r s.
 Proof. induction pf as [|f IH]; intros ps s q r lft Hps; destruct q as [|p q']; simpl; intro H; try discriminate.
